@@ -92,7 +92,7 @@ Proof.
   unfold h_blob, exc_rsp. destruct (find_view h vs) as [x|]; [|apply reply_err].
   destruct (v_read x); [apply reply_err| |apply reply_err].
   destruct (len v <? off); [apply reply_err|].
-  destruct (len v <=? mtu - 1); [apply reply_err|apply (reply_rsp 12)].
+  destruct ((off =? 0) && (len v <=? mtu - 1)); [apply reply_err|apply (reply_rsp 12)].
 Qed.
 
 Lemma h_rm_reply mtu vs hs : reply_for 14 (h_rm mtu vs 14 hs) = true.
@@ -368,7 +368,7 @@ Proof.
   destruct (find_view h vs) as [x|]; [|rewrite len_err_rsp; lia].
   destruct (v_read x) as [c|v|]; [rewrite len_err_rsp; lia| |unfold exc_rsp; rewrite len_err_rsp; lia].
   destruct (len v <? off) eqn:E; [rewrite len_err_rsp; lia|]. apply Z.ltb_ge in E.
-  destruct (len v <=? mtu - 1); [rewrite len_err_rsp; lia|].
+  destruct ((off =? 0) && (len v <=? mtu - 1)); [rewrite len_err_rsp; lia|].
   rewrite len_app. change (len [OP_BLOB_RSP]) with 1.
   pose proof (len_take_le (Z.min (mtu - 1) (len v - off)) (drop off v) ltac:(lia)). lia.
 Qed.
@@ -578,7 +578,7 @@ Proof.
   - right; right. inversion H; subst. repeat split. right. eexists; split; [reflexivity|].
     unfold h_blob. destruct (find_view _ _) as [x|]; [|reflexivity].
     destruct (v_read x); [reflexivity| |reflexivity].
-    destruct (_ <? _); [reflexivity|]. destruct (_ <=? _); reflexivity.
+    destruct (_ <? _); [reflexivity|]. destruct (_ && _); reflexivity.
   - right; right. inversion H; subst. repeat split. right. eexists; split; [reflexivity|].
     unfold h_rm. destruct (rm_collect _ _ _ _) as [r|h c|]; reflexivity.
   - right; right. inversion H; subst. repeat split. right. eexists; split; [reflexivity|].
@@ -1960,4 +1960,62 @@ Proof.
   cbn [assoc m_shapes m_handlers Z.eqb Pos.eqb parse_fields option_map to_req handle].
   unfold h_mtu. rewrite He. replace (DEFAULT_MTU <=? x + 256 * y) with true; [reflexivity|].
   symmetry. apply Z.leb_le. exact Hc.
+Qed.
+
+(* ------------------------------------------------------------------ an enhanced bearer closes *)
+(* frame: closing bearer j touches nothing but bearer j's record *)
+Lemma mclose_frame m j i : i <> j -> nth_error (m_bs (mclose m j)) i = nth_error (m_bs m) i.
+Proof.
+  intros H. unfold mclose. destruct (nth_error (m_bs m) j); [|reflexivity]. cbn [m_bs].
+  apply nth_set_other. exact H.
+Qed.
+
+Lemma mclose_db m j : m_db (mclose m j) = m_db m /\ m_max_mtu (mclose m j) = m_max_mtu m.
+Proof. unfold mclose. destruct (nth_error (m_bs m) j); split; reflexivity. Qed.
+
+(* over every history with closes, the state of bearer i after the history is what results
+   from the database and bearer i's own stimuli: every step on another bearer, close
+   included, leaves bearer i's record alone *)
+Lemma mstep2_frame m x n k out i :
+  mstep2 m x = Some (n, k, out) -> i <> k -> nth_error (m_bs n) i = nth_error (m_bs m) i.
+Proof.
+  intros H Hik. destruct x as [j o|j]; cbn [mstep2] in H.
+  - destruct (mstep m j o) as [[n' out']|] eqn:E; [|discriminate]. injection H as <- <- <-.
+    eapply mstep_frame; eassumption.
+  - injection H as <- <- <-. apply mclose_frame. exact Hik.
+Qed.
+
+Lemma mclose_ok m j : Forall (bst_ok m) (m_bs m) -> Forall (bst_ok (mclose m j)) (m_bs (mclose m j)).
+Proof.
+  intros Hok. unfold mclose. destruct (nth_error (m_bs m) j) as [x|] eqn:E; [|exact Hok].
+  cbn [m_bs]. apply Forall_set_nth.
+  - eapply Forall_impl; [|exact Hok]. intros y Hy. apply (bst_ok_db m); [reflexivity|exact Hy].
+  - assert (Hx : bst_ok m x) by (rewrite Forall_forall in Hok; apply Hok; eapply nth_error_In; exact E).
+    destruct Hx as (_ & Hm & Hmax). unfold bst_ok, proj, ind_inv. cbn. repeat split; try assumption. constructor.
+Qed.
+
+Lemma mclose_pending m j :
+  map bs_pending (m_bs (mclose m j)) = set_nth j false (map bs_pending (m_bs m)).
+Proof.
+  unfold mclose. destruct (nth_error (m_bs m) j) as [x|] eqn:E.
+  - cbn [m_bs]. rewrite map_set_nth. reflexivity.
+  - symmetry. apply set_nth_none. rewrite nth_error_map, E. reflexivity.
+Qed.
+
+(* one indication outstanding per bearer, over every history in which enhanced bearers also
+   close: the close of a bearer clears that bearer's flag only *)
+Lemma mrun2_ind_ok ops : forall m n outs,
+  Forall (bst_ok m) (m_bs m) -> mrun2 m ops = Some (n, outs) ->
+  mind_ok2 (map bs_pending (m_bs m)) ops outs = true.
+Proof.
+  induction ops as [|x ops IH]; intros m n outs Hok Hr; cbn [mrun2] in Hr.
+  - inversion Hr; reflexivity.
+  - destruct (mstep2 m x) as [[[m1 k] out]|] eqn:Es; [|discriminate].
+    destruct (mrun2 m1 ops) as [[m2 outs2]|] eqn:Er; [|discriminate]. inversion Hr; subst.
+    destruct x as [i o|i]; cbn [mstep2] in Es.
+    + destruct (mstep m i o) as [[n' out']|] eqn:E; [|discriminate]. injection Es as <- <- <-.
+      destruct (mstep_ind m i o n' out' Hok E) as (Hok1 & p' & Hso & Hp).
+      cbn [mind_ok2]. rewrite Hso, <- Hp. eapply IH; eassumption.
+    + injection Es as <- <- <-. cbn [mind_ok2]. rewrite <- mclose_pending.
+      eapply IH; [apply mclose_ok; exact Hok|exact Er].
 Qed.
